@@ -5,7 +5,7 @@ from .util import call
 
 ID = 'C06'
 LEAN_MODULE = 'KernProofs.C06'
-THEOREMS = []
+THEOREMS = ['KM.C06.C06_export_rows', 'KM.C06.C06_row_is_selected_cells', 'KM.C06.C06_row_projection', 'KM.C06.C06_null_rows_absorbed', 'KM.C06.C06_selection_by_header', 'KM.C06.C06_spine_types_empty', 'KM.rowOfStage_eq', 'KM.exportString_noRange', 'KM.mapM_filterMap_sel']
 FINGERPRINTS = ['exporter.Exporter.export_string', 'exporter.Exporter.append_row', 'exporter.Exporter.compute_header_type',
                 'exporter.Exporter.get_spine_types', 'importer.Importer', 'generic.Generic']
 RULE = ('generated documents with nested splits and joins (quick 25 / thorough 250) x EVERY subset of spine ids and EVERY subset of the occurring '
